@@ -106,7 +106,7 @@ def _alphabet(level):
 
 # runs: (alphabet level, depth).  Histories already covered by an earlier run of the tier are not repeated.
 BOUNDS = {
-    "quick": dict(runs=[(2, 3)]),
+    "quick": dict(runs=[(2, 3), (0, 4)]),
     "thorough": dict(runs=[(3, 3), (1, 4), (0, 5)]),
 }
 TIME_CAP = {"quick": 900, "thorough": 3000}
@@ -517,7 +517,6 @@ def check_history(acc, history, count=True):
             if h not in okset:
                 via = "hy.eval+macros" if tag.startswith("e") else ("hy.eval" if tag.endswith("e") else "direct")
                 glayer = _layer_of(h, history)
-                base = lab.split(".")[-1] if "." in lab and not lab.startswith("fn") else lab
                 bad("wrong-expansion",
                     f"probe {tag}/{lab} ({via}): the reference chain resolves to {layer} {sorted(map(repr, okset))}, hy expanded to {h!r} ({glayer})",
                     sig=f"expansion:{via}:{'prefixed' if '.' in lab.split('/')[-1] else 'plain'}:want={layer.split('@')[0]}:got={glayer.split('@')[0].split(':')[0]}",
